@@ -22,8 +22,8 @@ CLAIM = {
             "accepted by the visitor, and each channel layout of the visitor reads offsets N*(row*width+col)+0..N-1 in r,g,b,a order behind "
             "the length check; (3) FaceAttrs::names() and Face::from_str_named are inverse tables (10 attribute names through the bit "
             "constants and the underline decoder, fg/bg keys, ',' and '=' separators) and Face/KeyChord-style string serde goes through "
-            "exactly Display and the parser; (4) every struct literal in a from_json_value/visitor applies the validation filters that the "
-            "sibling builder functions apply to the same field (FlexChild.flex > 0). NOT decided: equality of values after a round trip "
+            "exactly Display and the parser; (4) for every struct that a from_json_value/visitor builds, every literal site (deserialiser "
+            "or builder sibling) applies the validation filters that any sibling applies to the same field (FlexChild.flex > 0). NOT decided: equality of values after a round trip "
             "(pixels, colours, floats, base64/deflate payload), recursion depth, and panic/overflow freedom of the numeric code "
             "(channels*height*width, layout arithmetic) — left to the abstract-interpreter hook.",
     "technique": "serializer key constants and value provenance from MIR, visitor match-arm tables and struct-literal sites from the syn "
@@ -313,7 +313,7 @@ def run(ctx):
         "are optional with default/passthrough on the reading side; path/scene written exclusively; declared struct length), IMAGE-CHANNELS "
         "(channels constant = bytes written per pixel, accepted by the visitor; each layout arm reads N*(row*width+col)+k, k<N, in rgba order, "
         "behind the data-length check), FACE-NAMES (names() vs from_str_named inverse through bit constants; fg/bg; separators; serde chain), "
-        "SIBLING-FILTER (struct literals in deserialisers apply the filters of the sibling builders). NOT decided: value equality after a round "
+        "SIBLING-FILTER (all literal sites of structs built by deserialisers apply the filters any sibling constructor applies). NOT decided: value equality after a round "
         "trip, recursion depth, numeric panic/overflow freedom (abstract-interpreter hook).")
     ctx.assume("serde derive output is taken from MIR (key constants), serde_json ignores the declared map length; rasterize::RGBA Display/FromStr, "
                "RGBA::to_rgba order [r,g,b,a] and serde's own impls are trusted (outside /repo)")
@@ -325,7 +325,7 @@ def run(ctx):
     ctx.rule("SER-REQUIRED", "visitor-required keys are written unconditionally, conditional keys default on the reading side, exclusive groups, declared length", floor=18)
     ctx.rule("IMAGE-CHANNELS", "channels constant = bytes per pixel written, accepted by the visitor; layout arms read N*(row*width+col)+k in rgba order", floor=6)
     ctx.rule("FACE-NAMES", "FaceAttrs::names() / Display keys vs Face::from_str_named arms are inverse; separators; serde chain", floor=33)
-    ctx.rule("SIBLING-FILTER", "struct literals in from_json_value/visitors apply the filters their builder siblings apply (FlexChild.flex > 0)", floor=138)
+    ctx.rule("SIBLING-FILTER", "all literal sites of structs built by from_json_value/visitors apply the filters their sibling constructors apply (FlexChild.flex > 0)", floor=138)
 
     # =========================== (b) key tables ==================================================
     pairs = [
@@ -839,7 +839,7 @@ def run(ctx):
                 else:
                     continue
                 rows.append((f, label, sc, cls, fl[0]["line"] if fl else lit["line"]))
-            ref = sorted({c[0] for _, _, sc, c, _ in rows if sc == "builder" and c[0].startswith("filtered:")})
+            ref = sorted({c[0] for _, _, sc, c, _ in rows if c[0].startswith("filtered:")})
             for f, label, sc, cls, line in rows:
                 agrees = (not ref) or cls[0] in ("none", "copy") or cls[0] in ref
                 ctx.instance("SIBLING-FILTER", {"struct": nm, "field": fld, "site": label, "scope": sc, "value": cls[0], "builder_filters": ref, "agrees": agrees})
@@ -850,7 +850,13 @@ def run(ctx):
                                   "%s { %s: %s } is built from deserialised input without the validation %s that the sibling builder applies to the same field "
                                   "(the builder's invariant does not hold for values read from JSON)" % (nm, fld, cls[1], ref), sites=["%s:%d" % (f, line)])
                 elif sc == "builder" and not agrees:
-                    ctx.note("builder %s stores %s.%s unvalidated (%s) while a sibling filters %s — outside C19 (not reachable from deserialisation), see C10" % (label, nm, fld, cls[1], ref))
+                    # a sibling constructor of a struct that deserialisers also build: the same invariant must hold at every literal site,
+                    # otherwise a tree that deserialises (and is then extended through the builder API) breaks the layout's precondition
+                    nth[(label, nm, fld)] = nth.get((label, nm, fld), 0) + 1
+                    k = nth[(label, nm, fld)]
+                    ctx.violation("SIBLING-FILTER", label, "%s.%s:unfiltered%s" % (nm, fld, "" if k == 1 else "#%d" % k),
+                                  "builder %s stores %s { %s: %s } without the validation %s that its sibling constructors apply to the same field"
+                                  % (label, nm, fld, cls[1], ref), sites=["%s:%d" % (f, line)])
     # the reference filter itself must exist (anchor of the agreement)
     fc = structs.get("FlexChild", [])
     refs = []
@@ -858,10 +864,10 @@ def run(ctx):
         for fl in lit["fields"]:
             if fl["name"] == "flex":
                 c = classify(fl["e"], fn)
-                if c[0].startswith("filtered:") and ">0" in c[0] and sc == "builder":
+                if c[0].startswith("filtered:") and ">0" in c[0]:
                     refs.append(label)
-    ctx.instance("SIBLING-FILTER", {"reference": "FlexChild.flex > 0 filter in a builder", "found_in": refs})
+    ctx.instance("SIBLING-FILTER", {"reference": "FlexChild.flex > 0 filter at some literal site", "found_in": refs})
     if not refs:
-        ctx.anchor("SIBLING-FILTER", "FlexChild.flex-reference-filter", "no builder of FlexChild filters `flex > 0` any more: flex_layout divides the remaining space by "
+        ctx.anchor("SIBLING-FILTER", "FlexChild.flex-reference-filter", "no constructor of FlexChild filters `flex > 0` any more: flex_layout divides the remaining space by "
                    "flex/flex_total and subtracts the child's size, which needs every flex > 0; nothing establishes it")
     obligations(ctx)
